@@ -14,6 +14,10 @@ func expectedOut(ws []wEntry) []byte {
 	}
 	out := make([]byte, 0, n)
 	for _, e := range ws {
+		if e.raw != nil {
+			out = append(out, e.raw...)
+			continue
+		}
 		for i := 0; i < e.n; i++ {
 			out = append(out, payloadOut(e.id, i))
 		}
@@ -37,7 +41,7 @@ func (w *World) checkOutPrefix(cs *connState, complete bool) {
 	// best-effort writes made inside OnClose
 	var failed []byte
 	if cs.failed != nil && cs.failed.n > 0 {
-		failed = outPayload(cs.failed.id, cs.failed.n)
+		failed = expectedOut([]wEntry{*cs.failed})
 	}
 	tail := expectedOut(cs.tail)
 	for i := 0; i < len(rx) && i < limit; i++ {
